@@ -254,6 +254,19 @@ impl Property for C01 {
             }
             Err(p) => obs.fail(format!("relate-enum:{ta}/{tb}|panic|{}", p.site()), format!("{} {}", p, ctx())),
         }
+        // (3b) one operand concrete, the other wrapped
+        match guard(std::panic::AssertUnwindSafe(|| (with_concrete!(&ga, a => matrix_of(&a.relate(&gb))), with_concrete!(&gb, b => matrix_of(&ga.relate(b)))))) {
+            Ok((m1, m2)) => {
+                obs.cmp();
+                if m1 != got || m2 != got {
+                    obs.fail(
+                        format!("relate-mixed:{ta}/{tb}|differs-from-concrete"),
+                        format!("concrete/enum {} enum/concrete {} vs concrete {}; {}", m1.to_string9(), m2.to_string9(), got.to_string9(), ctx()),
+                    );
+                }
+            }
+            Err(p) => obs.fail(format!("relate-mixed:{ta}/{tb}|panic|{}", p.site()), format!("{} {}", p, ctx())),
+        }
         // (4) re-representations of the same point sets (checked against the oracle AND geo itself)
         for r in 0..4u64 {
             let sel = crate::engine::splitmix64(c.vsel ^ r);
